@@ -739,8 +739,7 @@ CONTRACTS.append(block_matches)
 def setup_bs(cx):
     eng = cx.eng
     before = cx.val('FOUND', TSeq(MatchT))                   # the block placements as found (contract above)
-    after = cx.val('ARRANGED', TSeq(MatchT))                 # what sorted() returns
-    cx.spec_env.update(FOUND=before, ARRANGED=after, MatchT=MatchT)
+    cx.spec_env.update(MatchT=MatchT)
     lowest = cx.uf('lowest', [MatchT], TInt)                 # min(x[0].keys()): the lowest atom key the placement covers
     ix, rk = cx.uf('arr_ix', [TInt], TInt), cx.uf('arr_rk', [TInt], TInt)
     st = TSeq(MatchT)
@@ -763,17 +762,19 @@ def setup_bs(cx):
     def sorted_(e, xs, key=None, reverse=False):
         # sorted(xs, key=f, reverse=True) by its contract: an arrangement of xs (index maps arr_ix / arr_rk, inverse of each other) in
         # non-increasing order of f; elements with equal keys keep their order.  The key is evaluated from the real lambda
-        if not (isinstance(xs, SV) and z3.eq(xs.e, before.e)) or key is None:
+        if not (isinstance(xs, (SV, Box)) and type_of(xs) == st) or key is None:
             raise EngineError('sorted() of something else')
+        before_e = to_z3(xs, st)
+        after = e.fresh_val(st, 'arranged')
         e.oblige(reverse is True, 'order:highest-first')
         x = z3.Const('sx', MatchT.sort())
         kv = e.call(key, [SV(MatchT, x)], {})
         e.oblige(isinstance(kv, SV) and kv.ty == TInt and z3.eq(kv.e, lowest(x)), 'sort-key:the-lowest-atom-of-the-placement')
-        n = st.len(before.e)
+        n = st.len(before_e)
         a, b = z3.FreshInt('sa'), z3.FreshInt('sb')
         e.assume(st.len(after.e) == n)
         e.assume(z3.ForAll([a], z3.Implies(z3.And(0 <= a, a < n), z3.And(0 <= ix(a), ix(a) < n, rk(ix(a)) == a, 0 <= rk(a), rk(a) < n, ix(rk(a)) == a,
-                                                                      st.at(after.e, a) == st.at(before.e, ix(a))))))
+                                                                      st.at(after.e, a) == st.at(before_e, ix(a))))))
         if reverse is True:
             e.assume(z3.ForAll([a, b], z3.Implies(z3.And(0 <= a, a < b, b < n), z3.Or(
                 lowest(st.at(after.e, a)) > lowest(st.at(after.e, b)),
@@ -786,17 +787,50 @@ def setup_bs(cx):
 
 block_order = FunctionContract(
     F, 'do_mapping', 'C01', short='do_mapping[the order of the block placements]', setup=setup_bs,
+    locals=dict(block_matches=TSeq(MatchT)),
     region=dict(start="block_sort_key = lambda x:", end="mod_matches = sorted(mod_matches, key=mod_sort_key, reverse=True)"),
     ensures=[
         # the placements are applied - popped from the end of this list - lowest atom first: the list holds every placement found,
         # once, arranged by the lowest atom key each covers, highest first
-        "len(block_matches) == len(FOUND)",
-        "forall(lambda a: implies(0 <= a and a < len(FOUND), 0 <= arr_ix(a) and arr_ix(a) < len(FOUND) and block_matches[a] == FOUND[arr_ix(a)] and "
-        "   arr_rk(arr_ix(a)) == a and 0 <= arr_rk(a) and arr_rk(a) < len(FOUND) and arr_ix(arr_rk(a)) == a))",
-        "forall(lambda a, b: implies(0 <= a and a < b and b < len(FOUND), lowest(block_matches[a]) >= lowest(block_matches[b])))",
+        "len(block_matches) == len(old(block_matches))",
+        "forall(lambda a: implies(0 <= a and a < len(old(block_matches)), 0 <= arr_ix(a) and arr_ix(a) < len(old(block_matches)) and block_matches[a] == old(block_matches)[arr_ix(a)] and "
+        "   arr_rk(arr_ix(a)) == a and 0 <= arr_rk(a) and arr_rk(a) < len(old(block_matches)) and arr_ix(arr_rk(a)) == a))",
+        "forall(lambda a, b: implies(0 <= a and a < b and b < len(old(block_matches)), lowest(block_matches[a]) >= lowest(block_matches[b])))",
     ],
     canary=[("block_sort_key = lambda x: min(x[0].keys())", "block_sort_key = lambda x: min(x[1].keys())"),
             ("block_matches = sorted(block_matches, key=block_sort_key, reverse=True)", "block_matches = sorted(block_matches, key=block_sort_key)"),
             ("block_matches = sorted(block_matches, key=block_sort_key, reverse=True)", "block_matches = sorted(block_matches, key=lambda x: -block_sort_key(x), reverse=True)")],
 )
 CONTRACTS.append(block_order)
+
+
+
+# ------------------------------------------------------------------ do_mapping: the block placements, found and ordered (the two regions composed)
+def setup_bmo(cx):
+    args = setup_bm(cx)
+    args.update({k: v for k, v in setup_bs(cx).items() if k != 'block_matches'})
+    # between the two regions the modification placements are collected (modification_matches: not under this contract)
+    cx.spec_env['modification_matches'] = Builtin(lambda e, mol, maps: Obj('mod_matches'), 'modification_matches')
+    return args
+
+
+placements_whole = FunctionContract(
+    F, 'do_mapping', 'C01', short='do_mapping[the block placements, found and ordered]', setup=setup_bmo, spec_defs=SPEC_BM,
+    region=dict(start="block_matches = []", end="mod_matches = sorted(mod_matches, key=mod_sort_key, reverse=True)"),
+    blocks=[BlockSpec.of(block_matches), BlockSpec.of(block_order)],
+    locals=dict(g_found=TSeq(MatchT), g_lo=TMap(TInt, TInt), block_matches=TSeq(MatchT)),
+    ghost_at={'after:block:%s' % block_matches.short: "g_found = list(block_matches)"},
+    allow_exc=(),
+    ensures=[
+        # g_found - the list before it is sorted - is everything the block mappings find, mapping by mapping (stretch g_lo[m] ...); the
+        # list handed on is an arrangement of it (arr_ix / arr_rk: each placement once) by the lowest covered atom, highest first
+    ] + [c.replace('_i', 'len(MAPPINGS)').replace('block_matches', 'g_found') for c in
+         ["forall(lambda m: implies(0 <= m and m < _i, m in g_lo and 0 <= g_lo[m] and g_lo[m] + cnt(m) <= len(block_matches) and "
+          "   forall(lambda q: implies(0 <= q and q < cnt(m), block_matches[g_lo[m] + q] == found(MAPPINGS[m])[q]))))"] + BM_INV[1:]] + [
+        "len(block_matches) == len(g_found)",
+        "forall(lambda a: implies(0 <= a and a < len(g_found), 0 <= arr_ix(a) and arr_ix(a) < len(g_found) and block_matches[a] == g_found[arr_ix(a)] and "
+        "   arr_rk(arr_ix(a)) == a and 0 <= arr_rk(a) and arr_rk(a) < len(g_found) and arr_ix(arr_rk(a)) == a))",
+        "forall(lambda a, b: implies(0 <= a and a < b and b < len(g_found), lowest(block_matches[a]) >= lowest(block_matches[b])))",
+    ],
+)
+CONTRACTS.append(placements_whole)
